@@ -39,7 +39,7 @@ BOUND = ('handler programs: 58 named programs (str, bytes, empty, None, lists/tu
          'str or bytes with 0-2 leading empty items, file-likes with/without close and with/without wsgi.file_wrapper, '
          'HTTPResponse/HTTPError returned, raised, yielded first, nested to depth 3, exceptions in handler / at first '
          'next() / after leading empties, custom error handlers returning str, bytes, None, HTTPResponse, raising, looping, '
-         '404, 405) x methods {GET, HEAD, POST} x statuses {200, 204, 304, 100, 404, 500, "299 X"} (where the program '
+         '404, 405) x methods {GET, HEAD, POST} x statuses {200, 204, 304, 100, 404, 500, "299 X", " 410 Gone ", "202 Accepted CRLF"} (where the program '
          'takes a status) x hook configurations (0-2 before x 0-2 after x {no failure, each single hook failing}, plus '
          'PATH_INFO-rewriting before hook) x server consumption {all chunks, first chunk only then close()} for '
          'closeable programs; the product is enumerated exhaustively in both tiers; thorough adds seeded random '
@@ -47,7 +47,7 @@ BOUND = ('handler programs: 58 named programs (str, bytes, empty, None, lists/tu
 NONTRIVIAL_RULE = ('distinct (program tree, action, status, error handlers, route, method, hooks, consumption); '
                    'non-trivial = anything but a plain str/bytes returned to GET with status 200 and no hooks')
 
-STATUSES = [200, 204, 304, 100, 404, 500, '299 X']
+STATUSES = [200, 204, 304, 100, 404, 500, '299 X', ' 410 Gone ', '202 Accepted\r\n']     # the last two: padded status texts
 MORE_STATUSES = STATUSES + [201, 101, 301, 400, 405, 418, 503, '204 Nothing Here', '304 Same Old']
 METHODS = ['GET', 'HEAD', 'POST']
 
